@@ -745,7 +745,7 @@ func (g *fgen) interiorPtr(l *loc) string {
 // havocHeap havocs every real heap cell but keeps the ghost variables.
 func (g *fgen) havocHeap(st *state) {
 	keep := map[string]string{}
-	for name := range g.w.cs.ghosts {
+	for _, name := range sortedKeys(g.w.cs.ghosts) {
 		k, _ := g.ghostKey(name)
 		keep[k] = g.read(st, k)
 	}
